@@ -108,11 +108,25 @@ fn real_answers(lib: &[(String, String)], key: &str) -> Result<(Vec<Place>, Opti
         });
         let mut places: Vec<Place> = locs.iter().map(|l| Place { src: key_of_uri(&l.uri), line: l.range.start.line as usize }).collect();
         places.sort();
-        let hints = server.handle_inlay_hints(InlayHintParams {
-            text_document: TextDocumentIdentifier { uri: c01::uri_for(key) },
-            range: Range::default(),
-            work_done_progress_params: Default::default(),
-        });
+        let hints_for = |range: Range| server.handle_inlay_hints(InlayHintParams { text_document: TextDocumentIdentifier { uri: c01::uri_for(key) }, range, work_done_progress_params: Default::default() });
+        let hints = hints_for(Range::default());
+        // the hints of the whole note do not depend on how the editor describes "the whole note": the empty range,
+        // the exact extent of the text, and a range ending at the line after the last one
+        if let Some((_, text)) = lib.iter().find(|(k, _)| Key::from_file_name(k).to_string() == key) {
+            let nl = text.lines().count() as u32;
+            let last_len = text.lines().last().map(|l| l.encode_utf16().count()).unwrap_or(0) as u32;
+            let labels = |hs: &Vec<lsp_types::InlayHint>| {
+                let mut v: Vec<String> = hs.iter().map(|h| format!("{}:{:?}", h.position.line, h.label)).collect();
+                v.sort();
+                v
+            };
+            for range in [Range::new(Position::new(0, 0), Position::new(nl.saturating_sub(1), last_len)), Range::new(Position::new(0, 0), Position::new(nl + 1, 0))] {
+                let other = hints_for(range);
+                if labels(&other) != labels(&hints) {
+                    panic!("HINT-RANGE the hints for the range {:?} of note {:?} are {:?}, for the empty range {:?}", range, key, labels(&other), labels(&hints));
+                }
+            }
+        }
         let inline_count = hints.iter().find_map(|h| match &h.label {
             InlayHintLabel::String(s) if s.starts_with('‹') => s.trim_start_matches('‹').trim_end_matches('›').parse::<usize>().ok(),
             _ => None,
@@ -128,6 +142,7 @@ pub fn check_library(lib: &[(String, String)], allow_known: bool) -> Option<(Str
         let key = Key::from_file_name(k).to_string();
         let (places, inline_count) = match real_answers(lib, &key) {
             Ok(x) => x,
+            Err(e) if e.contains("HINT-RANGE") => return Some((e.replace("HINT-RANGE ", ""), false)),
             Err(_) => return None, // panics belong to C12
         };
         let expect = |m: &BTreeMap<String, (Vec<Place>, Vec<Place>)>| {
